@@ -4,7 +4,7 @@
    DeleteTable / Restore (incl. restores whose stream breaks off) / GetTables calls by k managers.  Table names are path segments: names containing '/' would alias
    internal records ("sys/idseq" IS the id sequence) and are rejected by the repaired code (KNOWN_FINDINGS.json
    F-C14-slash-names). *)
-From Verif Require Import Model.Bytes Model.Catalogue Proofs.CatalogueFacts.
+From Verif Require Import Model.Bytes Model.Catalogue Proofs.CatalogueFacts Model.MetaKV Proofs.CatalogueKeys.
 
 (* ids assigned to created tables are pairwise distinct and above the range start in every reachable state:
    an id is never used twice, also not across delete and re-creation, whatever the interleaving *)
@@ -131,3 +131,22 @@ Print Assumptions C14_create_existing_refused.
 Print Assumptions C14_create_sequence_step_ok.
 Print Assumptions C14_delete_reads_positive_version.
 Print Assumptions C14_restore_does_not_resurrect.
+
+(* the catalogue in the metadata store: a table's record lives under "/tables/<name>" and the listing is the glob
+   "/tables/*" - for names that are path segments it selects exactly the table records (not a lease below a table's
+   name, not the id sequence below "sys"), and different names have different records *)
+Theorem C14_listing_selects_every_table : forall name : bytes, no_slash name = true ->
+  glob tables_pattern (stored_table_name name) = true.
+Proof. exact listing_selects_tables. Qed.
+Theorem C14_listing_skips_leases_and_the_sequence : forall name rest : bytes,
+  glob tables_pattern (stored_table_name (name ++ slash :: rest)) = false.
+Proof. exact listing_skips_deeper. Qed.
+Theorem C14_names_have_their_own_record : forall a b : bytes, stored_table_name a = stored_table_name b -> a = b.
+Proof. exact stored_name_injective. Qed.
+Theorem C14_table_records_are_not_internal_records : forall a b rest : bytes, no_slash a = true ->
+  stored_table_name a <> stored_table_name (b ++ slash :: rest).
+Proof. exact stored_name_is_a_segment. Qed.
+Print Assumptions C14_listing_selects_every_table.
+Print Assumptions C14_listing_skips_leases_and_the_sequence.
+Print Assumptions C14_names_have_their_own_record.
+Print Assumptions C14_table_records_are_not_internal_records.
